@@ -149,6 +149,10 @@ theorem gen_backendOrder_eq : NV.Gen.C11.backendOrder = [3, 0, 1, 2] := rfl
 /-- **heartbeat_timer_callback** sets heart_beat_flag to 1 -/
 theorem gen_timerSetsFlag_eq (f : Int) : NV.Gen.C11.timerSetsFlag f = 1 := rfl
 
+/-- **tail of call_heart_beat**: the round, then `current_heart_beat = 0`, then the reset()/clean_up() sweep, then the
+    call_out dispatch - during the sweep and the dispatch nobody is "the object whose heart_beat is running" -/
+theorem gen_chbTail_eq : NV.Gen.C11.chbTail = [0, 1, 2, 3] := rfl
+
 theorem timerFlagHeartbeat_val : NV.Gen.C11.timerFlagHeartbeat = 2 := rfl
 
 /-- the guard of the round: `(MAIN_OPTION (timer_flags) & TIMER_FLAG_HEARTBEAT) && (num_hb_to_do > 0)` (after
@@ -353,8 +357,8 @@ def tickRef (sc : Scripts) (w : World) : World × List Ev :=
     else ({ w with flag := false, todo := (w.hbs.length : Int), cur := none }, [.tickBegin, .tickEnd])
   else ({ w with flag := false, todo := (w.hbs.length : Int), cur := none }, [.tickOff, .tickEnd])
 
-theorem tick_eq_ref (sc : Scripts) (w : World) : tickCore sc w = tickRef sc w := by
-  unfold tickCore tickRef leave
+theorem tick_eq_ref (sc : Scripts) (w : World) : tickRound sc w = tickRef sc w := by
+  unfold tickRound tickRef leave
   simp only [gen_roundEntry_eq, gen_roundSkip_eq]
   cases hon : hbOn w.tflags with
   | true =>
